@@ -12,6 +12,7 @@ import MptModel.Lemmas.Stream
 import MptModel.Lemmas.CodedQueueHist
 import MptModel.Lemmas.CodedQueueDec
 import MptModel.Lemmas.CodedQueueDrain
+import MptModel.Lemmas.CodedQueuePeek
 namespace Mpt.C02
 open Mpt Mpt.Cobs Mpt.Stream Mpt.Codec Mpt.CQ
 
@@ -119,6 +120,49 @@ example : (run .cobsR [[5, 6], [], [9]] [.write 0, .write 2, .flush, .deliver 2,
 
 /-! ### Part 2: the implementation model -/
 
+/-- **`mpt_queue_push` without encoder (raw byte queue)**, any ring state with `done + scratch = data.len`:
+    a data call appends the first `min free len` bytes to the content and counts them as open data, a full
+    queue refuses with `MissingBuffer` and stays as it is; the terminating call declares all data finished
+    (`done = data.len`, `scratch = 0`) without touching the ring. -/
+theorem queue_push_raw (q : EncodeQueue) (hc : q.codec = none) (hwf : q.ring.WF) (hl : q.st.done + q.st.scratch = q.ring.len) :
+    (∃ out, queuePush q none = .ok out ∧ out.ret = (q.ring.len : Nat) ∧ out.q.ring = q.ring ∧
+        out.q.st.done = q.ring.len ∧ out.q.st.scratch = 0) ∧
+    (∀ bytes, ∃ out, queuePush q (some bytes) = .ok out ∧
+      ((q.ring.len = q.ring.store.length ∧ out.ret = Err.MissingBuffer.code ∧ out.q = q) ∨
+       (q.ring.len < q.ring.store.length ∧ out.ret = ((min (q.ring.store.length - q.ring.len) bytes.length : Nat) : Int) ∧
+          out.q.ring.WF ∧ out.q.ring.store.length = q.ring.store.length ∧
+          out.q.ring.content = q.ring.content ++ bytes.take (min (q.ring.store.length - q.ring.len) bytes.length) ∧
+          out.q.st.done = q.st.done ∧
+          out.q.st.scratch = q.st.scratch + min (q.ring.store.length - q.ring.len) bytes.length))) :=
+  pushRaw_spec q hc hwf hl
+
+/-- **`mpt_queue_peek` is invisible to the stream** (one call, any queue state inside a valid frame stream,
+    with or without destination buffer, any `max`): the call is safe on every state (`DInv` kept for arbitrary
+    data: capacity, data length and offset unchanged), and inside a valid stream the receiver keeps its place
+    (`Phase`: same number of finished frames, same bytes accepted — the decoder only decodes more data bytes of
+    the open block in place, inside the first contiguous part of the ring), the work area invariant that the
+    liveness proof needs (`SlackOk`) is kept, no message appears or disappears, and a delivered message that
+    waits for `mpt_message_get` is left exactly as it is (state and content unchanged).  Since `queue_refines_recv`
+    holds for every `Phase` state, what a later `mpt_queue_recv` delivers is the message of the same frame
+    `k` as without the peek. -/
+theorem peek_invisible (v : Variant) (frames : List (List Byte)) (ms : List Msg) (hcar : Carries v frames ms)
+    (q : DecodeQueue) (hc : q.codec = some v) (fed future : List Byte) (hfut : fed ++ future = frames.flatten) (k : Nat)
+    (h : DInv q) (hph : Phase v frames q.st q.ring.content fed k) (mx : Nat) (dst : Bool)
+    (q' : DecodeQueue) (r : Int) (out : List Byte) (he : queuePeek q mx dst = .ok (q', r, out)) :
+    DInv q' ∧ q'.codec = some v ∧ q'.ring.store.length = q.ring.store.length ∧ q'.ring.len = q.ring.len ∧
+    Phase v frames q'.st q'.ring.content fed k ∧ (SlackOk v q.st → SlackOk v q'.st) ∧ q'.st.msg = q.st.msg ∧
+    (q.st.msg.isSome → q'.st = q.st ∧ q'.ring.content = q.ring.content) := by
+  obtain ⟨h1, h2, h3, h4, _⟩ := queuePeek_inv v q h hc mx dst q' r out he
+  obtain ⟨h5, h6, h7, h8⟩ := queuePeek_phase v frames ms hcar q hc fed future hfut k h hph mx dst q' r out he
+  exact ⟨h1, h2, h3, h4, h5, h6, h7, h8⟩
+
+-- non-vacuity: COBS frame `05 61 62 63 64 00` arrives in a wrapped ring; after the first receive the decoder
+-- stands inside the block; a peek decodes two more bytes in place; the next receive delivers the message
+example :
+    let r : List DOp := [.feed [5, 0x61], .recv, .feed [0x62, 0x63], .peek 16 true, .feed [0x64, 0], .peek 16 false, .recv]
+    let s := r.foldl rstep { q := { ring := { store := List.replicate 8 0, len := 0, off := 6 }, codec := some .cobs, base := 3 } }
+    s.got = [[0x61, 0x62, 0x63, 0x64]] := by decide
+
 /-- **`queuePush` refines the flat encoder on the ring's content** — every ring state (any capacity, wrap
     offset, fill; data contiguous, wrapped, or with the open block across the storage end), every framing,
     data or termination.  `EInv v q vis fin ms` says: the ring is well-formed, `data.len = done + scratch`,
@@ -195,7 +239,7 @@ example :
 
 /-- **Representation invariant of the decode queue, every reachable state**: from a fresh queue (any
     capacity, wrap offset, storage alignment, framing) after any sequence of arrivals of arbitrary bytes,
-    receives, shifts and growths: `pos + len ≤ curr ≤ data.len ≤ max` — the decoded bytes `[pos, pos+len)`
+    receives, shifts, growths and peeks (`mpt_queue_peek`, any `max`, with or without destination): `pos + len ≤ curr ≤ data.len ≤ max` — the decoded bytes `[pos, pos+len)`
     lie in front of the input position `curr`, the undecoded ones behind it — and a waiting message is
     exactly the decoded data. -/
 theorem queue_inv_decode (v : Variant) (store : List Byte) (off base : Nat) (hoff : off ≤ store.length) (ops : List DOp) :
@@ -236,7 +280,7 @@ theorem queue_refines_recv (v : Variant) (frames : List (List Byte)) (ms : List 
 
 /-- **Receiver history, all schedules**: a fresh decode queue (any capacity, wrap offset, storage alignment,
     framing) is fed a valid frame stream — frames that carry the messages `ms` — in arbitrary pieces (a
-    prefix of the stream may have arrived so far), with receives, shifts and growths in any order.  Then the
+    prefix of the stream may have arrived so far), with receives, shifts, growths and peeks in any order.  Then the
     messages delivered so far, each read through `mpt_message_get` after the delivering `mpt_queue_recv`, are
     exactly the first messages of `ms`: same order, same bytes, nothing duplicated, merged or invented —
     whatever the ring did (wrap-around, `mpt_qpre` recovery, cropping). -/
@@ -303,7 +347,7 @@ theorem queue_refines (v : Variant) :
 /-! ### liveness of the model -/
 
 /-- **No stall (model)**: from every reachable receiver state inside a valid stream — any history of arrivals
-    in arbitrary pieces, receives, shifts and growths on a queue of any capacity, wrap offset and storage
+    in arbitrary pieces, receives, shifts, growths and peeks on a queue of any capacity, wrap offset and storage
     alignment — a draining reader that gives the queue `B` bytes of storage more and calls `mpt_queue_recv`
     (`drainStep`) obtains one message per round: after `c − got` rounds, where `c` is the number of complete
     frames among the bytes accepted so far, exactly the first `c` messages have been delivered.  `B` = the
